@@ -282,6 +282,14 @@ FAMILIES = {
 
 # fixed-size edge inputs (constant expressions at the limits, sizes near 2^64, ...)
 EDGES = [
+    # the built-in va_list type (an array of a structure, a structure, a pointer - per target) in every initialiser form
+    "typedef __builtin_va_list va_list; va_list ap = {0};", "typedef __builtin_va_list va_list; void f(void) { va_list ap = {0}; (void)ap; }",
+    "typedef __builtin_va_list va_list; va_list a = { {1} };", "typedef __builtin_va_list va_list; va_list b = { [0] = {0} };",
+    "typedef __builtin_va_list va_list; struct w { va_list a; int k; } y = { 1, 4 };", "typedef __builtin_va_list va_list; struct w { int k; va_list a; } y = { 1, 4 }; va_list c = \"abc\";",
+    "typedef __builtin_va_list va_list; struct w { va_list a; int k; } x = { .k = 3 }, y = { {}, 4 }, z = { .a = {}, .k = 1 }; void f(void) { va_list a = { .q = 1 }; }",
+    "typedef __builtin_va_list va_list; void f(int n, ...) { va_list ap, bp = {}; __builtin_va_start(ap, n); __builtin_va_copy(bp, ap); (void)(va_list){}; (void)(va_list){0}; __builtin_va_end(ap); }",
+    "typedef __builtin_va_list va_list; va_list g; int f(void) { return sizeof g + _Alignof(va_list) + sizeof *&g + (g == g); }", "typedef __builtin_va_list va_list; va_list g; void *f(void) { return &g.x; }",
+    "typedef __builtin_va_list va_list; va_list g, h; void f(void) { g = h; g++; -g; *g; g[0]; g(); }", "typedef __builtin_va_list va_list; va_list f(va_list a) { return a; } void g(va_list a) { f(a); }",
     # initialisers and compound literals of types that are not object types
     "int *x = &(int(int)){2};", "void f(void){(void){0};}", "void f(void){sizeof((int(void)){0});}", "typedef void F(void);F g={0};", "void f(void){(struct u){0};}",
     "typedef int A[];void f(void){(A){};}", "void f(int n){(int[n]){0};}", "void v={};",
@@ -568,7 +576,7 @@ def stress_check(case, ctx):
     if "edge" in case:
         src = EDGES[case["edge"]] + "\n"
         what = "edge:%d" % case["edge"]
-        for t in TARGETS if ctx.tier == "thorough" else TARGETS[:1]:
+        for t in TARGETS if ctx.tier == "thorough" or "va_list" in src else TARGETS[:1]:
             judge(ctx, src.encode("utf-8", "surrogateescape"), t, [], res, what)
             if res.fail:
                 break
